@@ -37,6 +37,24 @@ fn sub(rng: &mut Rng) -> (i128, i128, i128) {
 
 pub fn generate(rng: &mut Rng, thorough: bool) -> Vec<String> {
     let mut v = Vec::new();
+    // the first and last representable date-times and instants under every rounding of the writers: the rounded value
+    // is written, or - when it leaves the range - a RangeError
+    for (p, su) in [("auto", "-"), ("0", "-"), ("3", "-"), ("auto", "minute"), ("auto", "second"), ("auto", "millisecond"), ("auto", "microsecond"), ("6", "-"), ("9", "-")] {
+        for mo in MOPT {
+            for (y, m, d, t) in [(-271821i128, 4i128, 19i128, "0 0 0 0 0 1"), (-271821, 4, 19, "0 0 0 500 0 0"), (-271821, 4, 19, "23 59 59 999 999 999"), (-271821, 4, 20, "0 0 0 0 0 0"),
+                                 (275760, 9, 13, "0 0 0 0 0 0"), (275760, 9, 13, "23 59 59 999 999 999"), (275760, 9, 13, "23 59 59 500 0 0"), (275760, 9, 12, "23 59 59 999 999 999")] {
+                v.push(format!("f_dt {y} {m} {d} {t} {p} {su} {mo} iso8601 auto"));
+            }
+            let max: i128 = 8_640_000_000_000_000_000_000;
+            for ins in [max, max - 1, max - 500_000_000, max - 59_999_999_999, -max, -max + 1, -max + 500_000_000, -max + 29_999_999_999] {
+                v.push(format!("f_inst {ins} - {p} {su} {mo}"));
+                v.push(format!("f_inst {ins} 1439 {p} {su} {mo}"));
+                v.push(format!("f_inst {ins} -1439 {p} {su} {mo}"));
+                v.push(format!("f_zdt {ins} 840 auto auto {p} {su} {mo} iso8601 auto"));
+                v.push(format!("f_zdt {ins} -720 auto auto {p} {su} {mo} iso8601 auto"));
+            }
+        }
+    }
     let n = if thorough { 20000 } else { 2500 };
     for _ in 0..n {
         let y = match rng.below(6) { 0 => rng.range(-271820, 275759), 1 => *rng.pick(&[0i128, 1, 9, 99, 999, 9999, 10000, -1, -9999, -10000, 275760, -271821]), _ => rng.range(1800, 2100) };
